@@ -13,6 +13,7 @@ PROP = {
     "jobs": [
         {"component": "endpoint", "comp_num": 7, "quick": 1600, "thorough": 60000, "timeout": 3000},
         {"component": "net", "comp_num": 70, "quick": 320, "thorough": 20000, "args": ["--stream", "0"], "timeout": 3000},
+        {"component": "net", "comp_num": 70, "quick": 480, "thorough": 30000, "args": ["--stream", "7"], "timeout": 3000},
     ],
     "design_ref": "DESIGN.md section 5, C07",
     "level_text": "Theorems (Coq, closed under the global context) on the endpoint model, for every interleaving incl. an arbitrary peer: allocated port "
